@@ -1,4 +1,5 @@
 import BoxoModel.C28.Model
+import BoxoModel.C28.Codec
 /-! Line-protocol driver for C28. -/
 open PathClean C28
 
@@ -76,6 +77,45 @@ def step (line : String) : String :=
           s!"ok {hex n} {hex str} {hex n.routingKey} rt={bit r1}{bit r2}{bit r3}{bit r4}{bit r5}"
         | _, _ => "invalid-name"
     | _, _ => "bad-op"
+  | ["pdec", s, ex] =>
+    -- peer.Decode with the concrete codecs; `ex` = what go-multibase returned for a prefix the model does not cover
+    match unhex s with
+    | some s =>
+      let extra : Str → Option Bytes := fun _ => if ex == "err" || ex == "none" then none else (unhex ex).bind s2b?
+      match peerDecodeB extra s with
+      | some m => hex (b2s m)
+      | none => "err"
+    | none => "bad-op"
+  | ["b36", m] =>
+    match (unhex m).bind s2b? with
+    | some m => hex (cidB36B m)
+    | none => "bad-op"
+  | ["cname", s, ex] =>
+    match unhex s with
+    | some s =>
+      let extra : Str → Option Bytes := fun _ => if ex == "err" || ex == "none" then none else (unhex ex).bind s2b?
+      let k := concreteCodec extra
+      match nameFromString k s with
+      | none => "err"
+      | some n =>
+        match n.toStr k, n.cid k with
+        | some str, some c =>
+          let r1 := nameFromString k str == some n
+          let r2 := nameFromString k (nsPrefix ++ str) == some n
+          let r3 := nameFromCid c == some n
+          let r4 := nameFromRoutingKey k n.routingKey == some n
+          let r5 := nameFromPeer n.peer == n
+          s!"ok {hex n} {hex str} {hex n.routingKey} rt={bit r1}{bit r2}{bit r3}{bit r4}{bit r5}"
+        | _, _ => "invalid-name"
+    | none => "bad-op"
+  | ["rkeyc", d] =>
+    -- NameFromRoutingKey with the concrete multihash check
+    match unhex d with
+    | some d =>
+      match nameFromRoutingKey (concreteCodec (fun _ => none)) d with
+      | some n => s!"ok {hex n}"
+      | none => "err"
+    | none => "bad-op"
   | ["rkey", d, v] =>
     match unhex d with
     | some d =>
